@@ -103,7 +103,18 @@ def w_image(pid, tier, seed, job):
             c2 = dict(case, file=p)
             if not ctx.require("every reported file is a well-formed WAV", c2, ok, why):
                 continue
-            if not ctx.require("every reported file is also reported for the complete image", c2, p in full, sorted(full)):
+            if p not in full:
+                # one half of an L/R pair whose other half is lost by the cut is exported on its own (known finding D17);
+                # its audio must still be a prefix of that channel of the complete pair
+                base = p[len("A/VOL/"):-len(".wav")]
+                sp = NC.split_stereo(base)
+                pair = "A/VOL/%s.wav" % sp[0] if sp else None
+                half = bool(sp) and pair in full and full[pair][3] == 2
+                ctx.require("every reported file is also reported for the complete image", dict(c2, unpaired_half=half), False, sorted(full))
+                if half:
+                    chn = 0 if sp[2] == "L" else 1
+                    want = b"".join(full[pair][2][i:i + 2] for i in range(2 * chn, len(full[pair][2]), 4))
+                    ctx.require("an unpaired half carries a prefix of its channel of the complete pair", c2, want[:len(pcm)] == pcm, {"len": len(pcm)})
                 continue
             ctx.require("reported PCM is a prefix of the complete image's PCM for the same path (no foreign bytes)", c2,
                         full[p][2][:len(pcm)] == pcm and ch == full[p][3], {"len": len(pcm), "full": len(full[p][2])})
@@ -157,19 +168,22 @@ def w_cdda(pid, tier, seed, job):
 # ----------------------------------------------------------------- function level
 def w_views(pid, tier, seed, job):
     """operational model on truncated base content vs the real classes"""
+    import io
     import views as VW
     ctx = F.Ctx(pid, tier, seed)
     rng = random.Random(job)
     content = bytes((i * 7 + 1) % 256 for i in range(40))
+    B = ("base",)
     specs = [
-        ("off", 30, 5, None),
-        ("wrap", 24, None),
-        ("sect", 24, 4, "plain", None),
-        ("sect", 12, 4, ("chain", (5, 1, 7)), None),
-        ("off", 10, 2, ("sect", 12, 4, ("chain", (5, 1, 7)), None)),
-        ("wrap", 11, ("sect", 12, 4, ("chain", (8, 2, 0)), None)),
+        ("off", 30, 5, B),
+        ("wrap", 24, B),
+        ("sect", 24, 4, B),
+        ("chain", 4, (5, 1, 7), B),
+        ("off", 10, 2, ("chain", 4, (5, 1, 7), B)),
+        ("wrap", 11, ("chain", 4, (8, 2, 0), B)),
+        ("off", 6, 1, ("wrap", 11, ("chain", 4, (8, 2, 0), ("off", 38, 2, B)))),
     ]
-    calls, metas = [], []
+    metas = []
     for spec in specs:
         for cut in [0, 3, 7, 8, 9, 20, 21, 29, 33, 36, 39]:
             for _ in range(6 if tier == "quick" else 30):
@@ -183,34 +197,31 @@ def w_views(pid, tier, seed, job):
                     else:
                         ops.append(("tell",))
                 metas.append((spec, cut, ops))
-    for spec, cut, ops in metas:
+    args = [[VW.enc_view(spec, cut), list(content[:cut]), 0, VW.enc_ops(ops)] for spec, cut, ops in metas]
+    mod = M.call_batch("run_view", args)
+    for (spec, cut, ops), mv in zip(metas, mod):
         trunc = content[:cut]
-        got = VW.run_impl(spec, trunc, ops)
-        mod = VW.run_model(spec, trunc, ops, base_len_for_wf=len(content)) if hasattr(VW, "run_model") else None
-        fullr = VW.run_impl(spec, content, ops)
+        got = VW.run_impl(VW.build(spec, io.BytesIO(trunc)), ops)
+        fullr = VW.run_impl(VW.build(spec, io.BytesIO(content)), ops)
         case = {"view": spec, "cut": cut, "ops": ops}
         ctx.count("view_cut", (repr(spec), cut, tuple(ops)), nontrivial=True)
-        if mod is not None:
-            ctx.agree("run_view(truncated)", case, got, mod)
-        # property: each read output is the full-content output, a prefix of it, or SectorReadError; stop comparing after the first deviation
+        ctx.agree("run_view(truncated)", case, got, VW.dec_outs(mv))
         ok, why = True, None
-        for a, b in zip(got, fullr):
-            if a == b:
+        for a_, b_ in zip(got, fullr):
+            if a_ == b_:
                 continue
-            if a[0] == "err" and a[1] in ("SectorReadError",):
+            if a_[0] == "err" and a_[1] == "SectorReadError":
                 break
-            if a[0] == "bytes" and b[0] == "bytes" and b[1][:len(a[1])] == a[1]:
+            if a_[0] == "bytes" and b_[0] == "bytes" and b_[1][:len(a_[1])] == a_[1]:
                 break
-            ok, why = False, (a, b)
+            ok, why = False, (a_, b_)
             break
         ctx.require("a read over the truncated file returns the full-file bytes, a prefix of them, or SectorReadError", case, ok, why)
     return ctx.dump()
 
 
 def run(ctx):
-    import views as VW
-    if hasattr(VW, "run_impl"):
-        F.pmap(ctx, w_views, [ctx.seed * 3 + i for i in range(4 if ctx.quick else 16)])
+    F.pmap(ctx, w_views, [ctx.seed * 3 + i for i in range(4 if ctx.quick else 16)])
     F.pmap(ctx, w_image, [ctx.seed * 131 + i for i in range(12 if ctx.quick else 96)])
     F.pmap(ctx, w_cdda, [ctx.seed * 977 + i for i in range(8 if ctx.quick else 48)])
 
